@@ -166,9 +166,19 @@ def rule3_fields(ctx, v):
     ctx.floor('C07.3', 6)
 
 
+def rule_init_complete(ctx, fl):
+    ctx.doc('C07.4', 'initialiser completeness: every field of the join counter that myth_join_counter_wait_body / myth_join_counter_dec_body read(s), directly or through an inlined helper, '
+            'is written by myth_join_counter_init_body (an object placed in recycled memory must not depend on its previous contents)')
+    vi = ctx.view(NATIVE, roots=['myth_join_counter_init_body', 'myth_join_counter_wait_body', 'myth_join_counter_dec_body'], stops=('myth_queue_push', 'myth_queue_pop', 'myth_yield_ex_body', 'hr_gettime', 'fprintf', 'exit') + lib.SPIN_STOPS, flavour=fl)
+    n = lib.init_covers(ctx, 'C07.4', vi, 'myth_join_counter_init_body', ['myth_join_counter_wait_body', 'myth_join_counter_dec_body'], 'join counter')
+    ctx.ob('C07.4', 'fields read by the operations enumerated', n >= 5, 'read set of the operations', loc='src/myth_sync_func.h', detail=str(n))
+    ctx.floor('C07.4', 7)
+
+
 def run(ctx):
     for fl in flavours(ctx):
         ctx.unit = fl
+        rule_init_complete(ctx, fl)
         v = ctx.view(NATIVE, roots=['myth_join_counter_wait_body', 'myth_join_counter_dec_body',
                                     'myth_join_counter_init_body', 'calc_bits'],
                      stops=('myth_block_on_queue', 'myth_wake_many_from_queue', 'myth_sleep_queue_init', 'calc_bits'), flavour=fl)
@@ -179,6 +189,8 @@ def run(ctx):
 
 SYNC = 'src/myth_sync_func.h'
 MUTANTS = [
+    {'name': 'join_counter_init forgets the state word', 'expect': 'C07.4',
+     'edits': [(SYNC, '  /* number of waiters|number of decrements so far */\n  jc->state = 0;\n', '')]},
     {'name': 'wakes n_threads instead of the recorded waiters', 'expect': 'C07.2',
      'edits': [(SYNC, "      long n_threads_to_wake = (s >> jc->n_threads_bits);", "      long n_threads_to_wake = jc->n_threads;")]},
     {'name': 'waiter count read from a fresh load instead of the replaced word', 'expect': 'C07.2',
